@@ -463,6 +463,15 @@ func ruleNoPostDeliveryMutation() check.Rule {
 			for _, sc := range m.SCs {
 				armed := c.Armed(sc)
 				locals := directLocals(sc.Pkg.TypesInfo, sc.Lit)
+				// variables declared inside a loop body are fresh per iteration
+				for v := range locals {
+					for n := m.Parent(sc.Pkg, identDeclNode(m, sc, v)); n != nil && n != ast.Node(sc.Lit); n = m.Parent(sc.Pkg, n) {
+						switch n.(type) {
+						case *ast.ForStmt, *ast.RangeStmt:
+							delete(locals, v)
+						}
+					}
+				}
 				n := 0
 				for _, e := range sc.Emits {
 					if !e.ToDest || e.Kind != model.EmitNext || len(e.Args) != 1 || e.Forwarder {
@@ -634,4 +643,16 @@ func C04() *check.Property {
 		Floors:      map[string]int{"adapters": 40, "aliases": 20, "pipe_functions": 48, "container_emissions": 6},
 		Controls:    map[string]string{"zz_verif_controls_c04.go": roControl(controlsC04)},
 	}
+}
+
+// identDeclNode returns the identifier node that declares v inside the SC.
+func identDeclNode(m *model.Model, sc *model.SC, v *types.Var) ast.Node {
+	var out ast.Node
+	ast.Inspect(sc.Lit.Body, func(n ast.Node) bool {
+		if id, ok := n.(*ast.Ident); ok && sc.Pkg.TypesInfo.Defs[id] == v {
+			out = id
+		}
+		return out == nil
+	})
+	return out
 }
